@@ -20,7 +20,17 @@ Mixed == {<<Leaf("text", "t1"), E("", "m", << >>, << >>, << >>), Leaf("text", "t
           <<Leaf("text", "t1"), Leaf("cdata", "t2")>>, <<Leaf("comment", "c1"), E("", "m", <<D("", U2)>>, <<[pfx |-> "", local |-> "a", val |-> "v1"]>>, << >>)>>}
 Roots == {E(p, "r", ds, as, ks) : p \in Pfx, ds \in RootDecls, as \in {<< >>, <<[pfx |-> "", local |-> "a", val |-> "v1"]>>},
                                    ks \in {<<c>> : c \in C2} \cup Mixed \cup Leaves}
-Trees == {t \in Roots : WF(t, << >>)}
+\* trees that are large in size only: a chain 48 elements deep (alternating prefixes, a default namespace every fifth level, an
+\* undeclaration on the way), and a root with 300 children
+RECURSIVE Chain(_)
+Chain(n) == IF n = 0 THEN E("", "leaf", << >>, << >>, <<Leaf("text", "t1")>>)
+            ELSE E(IF n % 2 = 0 THEN "p" ELSE "", "d", IF n % 5 = 0 THEN <<D("", U2)>> ELSE IF n = 17 THEN <<D("", "")>> ELSE << >>,
+                   IF n % 7 = 0 THEN <<[pfx |-> "p", local |-> "a", val |-> "v2"]>> ELSE << >>, <<Chain(n - 1)>>)
+DeepRoot == E("p", "r", <<D("p", U1)>>, << >>, <<Chain(48)>>)
+WideRoot == E("", "r", <<D("", U1), D("p", U2)>>, << >>,
+              [i \in 1..300 |-> IF i % 3 = 0 THEN Leaf("text", "t1") ELSE E(IF i % 2 = 0 THEN "p" ELSE "", "w", << >>, << >>, IF i % 4 = 0 THEN <<Leaf("cdata", "t2")>> ELSE << >>)])
+Trees == {t \in Roots \cup {DeepRoot, WideRoot} : WF(t, << >>)}
+ASSUME WF(DeepRoot, << >>) /\ WF(WideRoot, << >>)
 
 \* ---- F0: laws
 \* Expand is invariant under renaming the prefix p (to z) consistently
@@ -28,7 +38,7 @@ RECURSIVE Ren(_)
 RP(x) == IF x = "p" THEN "z" ELSE x
 Ren(n) == IF n.kind # "el" THEN n
           ELSE [n EXCEPT !.pfx = RP(n.pfx), !.decls = [i \in 1..Len(n.decls) |-> [n.decls[i] EXCEPT !.pfx = RP(@)]],
-                         !.attrs = [i \in 1..Len(n.attrs) |-> [n.attrs[i] EXCEPT !.pfx = RP(@)]], !.kids = [i \in 1..Len(n.kids) |-> Ren(n.kids[i])]]
+                         !.attrs = [i \in 1..Len(n.attrs) |-> [n.attrs[i] EXCEPT !.pfx = RP(@)]], !.kids = TLCEval([i \in 1..Len(n.kids) |-> Ren(TLCEval(n.kids[i]))])]
 ASSUME \A t \in Trees : Expand(Ren(t), << >>) = Expand(t, << >>)
 \* the token stream of every tree is balanced, well nested and of length 2 * elements + leaves
 ASSUME \A t \in Trees : LET x == Expand(t, << >>) IN Balanced(Tokens(x)) /\ Len(Tokens(x)) = 2 * NEl(x) + NLeaf(x)
